@@ -157,7 +157,7 @@ package common
 //@ func validateUTXO
 //@   property C05, C02
 //@   requires utxo != nil && keySigs != nil && 0 <= index && 0 <= offset
-//@   requires [c02-disjoint] forall j int :: 0 <= j && j < len(utxo.Keys) ==> !has(keySigs, utxo.Keys[j])
+//@   requires [c02-disjoint] @C02 forall j int :: 0 <= j && j < len(utxo.Keys) ==> !has(keySigs, utxo.Keys[j])
 //@   modifies keySigs[..]
 //@   ensures [nokeys] utxo.Type != OutputTypeScript && utxo.Type != OutputTypeNodeRemove ==> len(keySigs) == old(len(keySigs))
 //@   ensures [types] result == nil ==> utxo.Type == OutputTypeScript || utxo.Type == OutputTypeNodeRemove ||
@@ -182,9 +182,9 @@ package common
 //@   -- established by validateInputs), so every earlier entry is kept with its signature; every new entry is an existing object
 //@   ensures [c02-kept] @C02 forall p *crypto.Key :: old(has(keySigs, p)) ==> has(keySigs, p) && keySigs[p] == old(keySigs[p])
 //@   ensures [c02-dom] @C02 forall p *crypto.Key :: has(keySigs, p) ==> old(has(keySigs, p)) || allocated(p)
-//@   hint return [win] NoWrap(offset, utxo.Keys) ==> AggWindow(as.Signers, rangeindex_0 + 1 - signers, signers, offset, offset + len(utxo.Keys))
-//@   hint return [run] forall j int :: rangeindex_0 + 1 - signers <= j && j < rangeindex_0 + 1 ==> has(keySigs, utxo.Keys[as.Signers[j] - offset])
-//@   hint return [wit] Witness2(rangeindex_0 + 1 - signers, signers) -- names the witness (lo, n) of [c02-agg] for the solver (Witness2 is constantly true)
+//@   hint return [win] @C02 NoWrap(offset, utxo.Keys) ==> AggWindow(as.Signers, rangeindex_0 + 1 - signers, signers, offset, offset + len(utxo.Keys))
+//@   hint return [run] @C02 forall j int :: rangeindex_0 + 1 - signers <= j && j < rangeindex_0 + 1 ==> has(keySigs, utxo.Keys[as.Signers[j] - offset])
+//@   hint return [wit] @C02 Witness2(rangeindex_0 + 1 - signers, signers) -- names the witness (lo, n) of [c02-agg] for the solver (Witness2 is constantly true)
 //@   loop 0 invariant [c02-lo] @C02 0 <= signers && signers <= rangeindex + 1
 //@   loop 0 invariant [c02-before] @C02 forall j int :: 0 <= j && j < rangeindex + 1 - signers ==> as.Signers[j] < offset
 //@   loop 0 invariant [c02-run] @C02 forall j int :: rangeindex + 1 - signers <= j && j <= rangeindex ==>
@@ -205,7 +205,7 @@ package common
 //@ func (tx *SignedTransaction) validateInputs
 //@   property C05, C01, C02
 //@   requires tx != nil && store != nil && InputsOK(&tx.Transaction)
-//@   requires [c02-preexisting] SigMapsExist(tx) -- typing: the signature maps reachable from the argument exist before the call
+//@   requires [c02-preexisting] @C02 SigMapsExist(tx) -- typing: the signature maps reachable from the argument exist before the call
 //@   modifies nothing
 //@   ensures [filter] UtxoMapOK(result0)
 //@   ensures [keys] err == nil && PlainInputs(&tx.Transaction) ==> forall i int :: 0 <= i && i < len(tx.Inputs) ==> has(result0, InputKey(tx.Inputs[i]))
@@ -298,8 +298,8 @@ package common
 //@   requires ver != nil && store != nil && DecodedShape(ver) && snapTime >= CustodianGenesis(store)
 //@   requires [decoded] DecodedTx(&ver.SignedTransaction) -- proved for every decoded transaction by C06 (unmarshalVersionedTransaction)
 //@   requires [preexisting] OutsOK(&ver.Transaction) -- objects reachable from the argument exist before the call (typing)
-//@   requires [c02-preexisting] SigMapsExist(&ver.SignedTransaction) -- likewise the signature maps
-//@   requires [c02-typing] SigsNotHashCache(ver) -- a *crypto.Signature never points to the Hash field ver.hash (Go typing; the engine has no typed pointers)
+//@   requires [c02-preexisting] @C02 SigMapsExist(&ver.SignedTransaction) -- likewise the signature maps
+//@   requires [c02-typing] @C02 SigsNotHashCache(ver) -- a *crypto.Signature never points to the Hash field ver.hash (Go typing; the engine has no typed pointers)
 //@   -- frame: Validate caches sizes/hashes inside ver (and, through validateNodeRemove, the hash cache of a store-returned
 //@   -- transaction, which no caller can observe). Assumed, not checked (noframe): used by the C31 batch loop.
 //@   modifies ver.hash, ver.pmbytes, ver.validatedSize
@@ -311,13 +311,13 @@ package common
 //@   -- (and hash caches of store-returned transactions in validateNodeRemove, whose frame cannot be named), so old == new for every field used.
 //@   -- proof guidance (checked): the facts are transferred to the entry state once, right after the callee that establishes them; the postconditions
 //@   -- then combine them at every return
-//@   hint after validateInputs [h-c01-ord] callerr == nil && txType != TransactionTypeMint && txType != TransactionTypeDeposit ==> old(OrdInputs(&ver.Transaction))
-//@   hint after validateInputs [h-c01-asset] callerr == nil && txType != TransactionTypeMint && txType != TransactionTypeDeposit ==>
+//@   hint after validateInputs [h-c01-ord] @C01 callerr == nil && txType != TransactionTypeMint && txType != TransactionTypeDeposit ==> old(OrdInputs(&ver.Transaction))
+//@   hint after validateInputs [h-c01-asset] @C01 callerr == nil && txType != TransactionTypeMint && txType != TransactionTypeDeposit ==>
 //@       old(forall k int :: {ver.Inputs[k]} 0 <= k && k < len(ver.Inputs) ==> InLedger(store, ver.Inputs[k]) && InputAssetIs(store, ver.Inputs[k], ver.Asset))
-//@   hint after validateInputs [h-c01-sum] callerr == nil && txType != TransactionTypeMint && txType != TransactionTypeDeposit ==>
+//@   hint after validateInputs [h-c01-sum] @C01 callerr == nil && txType != TransactionTypeMint && txType != TransactionTypeDeposit ==>
 //@       val(callresult1) == old(SumIn(store, &ver.Transaction, len(ver.Inputs)))
-//@   hint after validateOutputs [h-c01-positive] callerr == nil ==> old(forall a int :: 0 <= a && a < len(ver.Outputs) ==> val(ver.Outputs[a].Amount) > 0)
-//@   hint after validateOutputs [h-c01-out] callerr == nil ==> old(SumOut(&ver.Transaction, len(ver.Outputs))) == val(inputAmount)
+//@   hint after validateOutputs [h-c01-positive] @C01 callerr == nil ==> old(forall a int :: 0 <= a && a < len(ver.Outputs) ==> val(ver.Outputs[a].Amount) > 0)
+//@   hint after validateOutputs [h-c01-out] @C01 callerr == nil ==> old(SumOut(&ver.Transaction, len(ver.Outputs))) == val(inputAmount)
 //@   ensures [c01-nonempty] @C01 err == nil ==> old(len(ver.Inputs) >= 1 && len(ver.Outputs) >= 1)
 //@   ensures [c01-shape] @C01 err == nil ==> old(forall j int :: 0 <= j && j < len(ver.Inputs) ==> OrdInput(ver.Inputs[j]) ||
 //@       (len(ver.Inputs) == 1 && len(ver.Inputs[0].Genesis) == 0 && (ver.Inputs[0].Mint != nil || ver.Inputs[0].Deposit != nil)))
@@ -334,20 +334,20 @@ package common
 //@   -- signers are distinct, is part of the precondition DecodedTx and is re-checked by validateAggregatedSigners: validateUTXO [c02-agg].)
 //@   -- proof guidance (checked): the C02 clauses are established once, right after validateInputs returned, in terms of the entry state (old); the
 //@   -- postconditions below then restate them at every return (for a mint / deposit transaction the single input is not ordinary: vacuous there)
-//@   hint after validateInputs [c02-keyoff-old] forall k int :: {ver.Inputs[k]} 0 <= k && k < len(ver.Inputs) ==>
+//@   hint after validateInputs [c02-keyoff-old] @C02 forall k int :: {ver.Inputs[k]} 0 <= k && k < len(ver.Inputs) ==>
 //@       KeyOff(store, &ver.Transaction, k) == old(KeyOff(store, &ver.Transaction, k))
-//@   hint after validateInputs [c02-inhash-old] forall k int :: {ver.Inputs[k]} 0 <= k && k < len(ver.Inputs) ==> ver.Inputs[k].Hash == old(ver.Inputs[k].Hash)
-//@   hint after validateInputs [c02-aggsig-old] ver.AggregatedSignature != nil ==> seq(ver.AggregatedSignature.Signature) == old(seq(ver.AggregatedSignature.Signature))
-//@   hint after validateInputs [h-c02-sigs] callerr == nil && txType != TransactionTypeMint && txType != TransactionTypeDeposit ==> old(ver.AggregatedSignature == nil ==> forall k int, i uint16 :: {ver.Inputs[k], has(ver.SignaturesMap[k], i)} 0 <= k && k < len(ver.Inputs) && OrdInput(ver.Inputs[k]) &&
+//@   hint after validateInputs [c02-inhash-old] @C02 forall k int :: {ver.Inputs[k]} 0 <= k && k < len(ver.Inputs) ==> ver.Inputs[k].Hash == old(ver.Inputs[k].Hash)
+//@   hint after validateInputs [c02-aggsig-old] @C02 ver.AggregatedSignature != nil ==> seq(ver.AggregatedSignature.Signature) == old(seq(ver.AggregatedSignature.Signature))
+//@   hint after validateInputs [h-c02-sigs] @C02 callerr == nil && txType != TransactionTypeMint && txType != TransactionTypeDeposit ==> old(ver.AggregatedSignature == nil ==> forall k int, i uint16 :: {ver.Inputs[k], has(ver.SignaturesMap[k], i)} 0 <= k && k < len(ver.Inputs) && OrdInput(ver.Inputs[k]) &&
 //@       SignedType(InputUtxoType(store, ver.Inputs[k])) && has(ver.SignaturesMap[k], i) ==> i < InKeyCount(store, ver.Inputs[k]) &&
 //@       crypto.SigOK(seq(InKeyVal(store, ver.Inputs[k], i)), seq(PayloadHashOf(ver)), seq(*ver.SignaturesMap[k][i])))
-//@   hint after validateInputs [h-c02-threshold] callerr == nil && txType != TransactionTypeMint && txType != TransactionTypeDeposit ==> old(ver.AggregatedSignature == nil ==> forall k int :: {ver.Inputs[k]} 0 <= k && k < len(ver.Inputs) && OrdInput(ver.Inputs[k]) &&
+//@   hint after validateInputs [h-c02-threshold] @C02 callerr == nil && txType != TransactionTypeMint && txType != TransactionTypeDeposit ==> old(ver.AggregatedSignature == nil ==> forall k int :: {ver.Inputs[k]} 0 <= k && k < len(ver.Inputs) && OrdInput(ver.Inputs[k]) &&
 //@       SignedType(InputUtxoType(store, ver.Inputs[k])) ==> k < len(ver.SignaturesMap) && SigCount(ver.SignaturesMap[k]) >= InThreshold(store, ver.Inputs[k]))
-//@   hint after validateInputs [h-c02-agg-threshold] callerr == nil && txType != TransactionTypeMint && txType != TransactionTypeDeposit ==> old(ver.AggregatedSignature != nil ==> forall k int :: {ver.Inputs[k]} 0 <= k && k < len(ver.Inputs) && OrdInput(ver.Inputs[k]) &&
+//@   hint after validateInputs [h-c02-agg-threshold] @C02 callerr == nil && txType != TransactionTypeMint && txType != TransactionTypeDeposit ==> old(ver.AggregatedSignature != nil ==> forall k int :: {ver.Inputs[k]} 0 <= k && k < len(ver.Inputs) && OrdInput(ver.Inputs[k]) &&
 //@       SignedType(InputUtxoType(store, ver.Inputs[k])) ==>
 //@       (exists lo, n int :: {Witness2(lo, n)} Witness2(lo, n) && n >= InThreshold(store, ver.Inputs[k]) &&
 //@           AggWindow(ver.AggregatedSignature.Signers, lo, n, KeyOff(store, &ver.Transaction, k), KeyOff(store, &ver.Transaction, k) + InKeyCount(store, ver.Inputs[k]))))
-//@   hint after validateInputs [h-c02-agg-verified] callerr == nil && txType != TransactionTypeMint && txType != TransactionTypeDeposit ==> old(ver.AggregatedSignature != nil ==> forall k, i int :: {ver.Inputs[k], ver.AggregatedSignature.Signers[i]} 0 <= k && k < len(ver.Inputs) && OrdInput(ver.Inputs[k]) &&
+//@   hint after validateInputs [h-c02-agg-verified] @C02 callerr == nil && txType != TransactionTypeMint && txType != TransactionTypeDeposit ==> old(ver.AggregatedSignature != nil ==> forall k, i int :: {ver.Inputs[k], ver.AggregatedSignature.Signers[i]} 0 <= k && k < len(ver.Inputs) && OrdInput(ver.Inputs[k]) &&
 //@       SignedType(InputUtxoType(store, ver.Inputs[k])) && InAggWindow(store, &ver.SignedTransaction, k, i) ==>
 //@       crypto.AggSigner(seq(ver.AggregatedSignature.Signature), seq(PayloadHashOf(ver)), len(ver.AggregatedSignature.Signers), i, ver.AggregatedSignature.Signers[i],
 //@           seq(InKeyVal(store, ver.Inputs[k], ver.AggregatedSignature.Signers[i] - KeyOff(store, &ver.Transaction, k)))))
